@@ -50,8 +50,6 @@ def write(verif):
         "engines": [
             {"name": "kani-cbmc", "path": "/verif/harness", "serves_properties": sorted(props.PROPS),
              "kind_free_text": "Kani 0.68 / CBMC 6.11 bounded model checker over the real sources (include!), ideal models for ring/smallvec/HashMap"},
-            {"name": "mir2smt", "path": "/verif/vlib/mir2smt.py", "serves_properties": [p for p in sorted(props.PROPS) if any(o["engine"] == "smt" for o in props.PROPS[p]["obligations"])],
-             "kind_free_text": "MIR slice -> SMT-LIB2, discharged by z3 and cvc5"},
         ],
         "checks": checks,
         "not_applicable": sorted(na, key=lambda x: x["property_id"]),
